@@ -144,6 +144,15 @@ fn touch(key: usize, me: usize, write: bool) -> (bool, usize) {
 
 /// address range of the executable's writable image (.data/.bss): statics live there
 static STATIC_LO: AtomicUsize = AtomicUsize::new(0);
+/// Focus of the conflict-directed holds in this execution: a thread parks itself only before
+/// atomics whose (image-relative) address falls into a seeded 1/FOCUS_MOD of all static
+/// addresses, so that the holds of one execution concentrate on a few variables instead of
+/// being spread over every lock and lazily initialised static a call touches.
+static FOCUS_MOD: AtomicUsize = AtomicUsize::new(1);
+static FOCUS_SALT: AtomicUsize = AtomicUsize::new(0);
+/// atomic operations a caller may perform without a scheduling point before it must let the
+/// others run (a spinning caller; how long the OS may starve the thread it is waiting for)
+static SPIN_GUARD: AtomicUsize = AtomicUsize::new(20_000);
 static STATIC_HI: AtomicUsize = AtomicUsize::new(0);
 
 fn init_static_range() {
@@ -354,6 +363,10 @@ pub fn atomic_point(addr: usize, write: bool) {
         touch(if is_static { addr - lo + 1 } else { addr }, me, write)
     };
     let shared = is_static || (last != 0 && last != me);
+    let in_focus = !is_static || {
+        let m = FOCUS_MOD.load(Ordering::Relaxed);
+        m <= 1 || addr_hash((addr - lo + 1) ^ FOCUS_SALT.load(Ordering::Relaxed)) % m == 0
+    };
     let interesting = addr != 0 && shared && (write || written_before);
     // --- a spinning thread must let the others run eventually
     let spun = SINCE_SCHED.try_with(|c| {
@@ -361,7 +374,7 @@ pub fn atomic_point(addr: usize, write: bool) {
         c.set(v);
         v
     }).unwrap_or(0);
-    if spun >= 20_000 {
+    if spun >= SPIN_GUARD.load(Ordering::Relaxed) as u64 {
         let _closed = gate_close();
         SINCE_SCHED.with(|c| c.set(0));
         forced_switch(me);
@@ -384,7 +397,7 @@ pub fn atomic_point(addr: usize, write: bool) {
         }
     }
     // --- park this thread right before the operation and let the others run up to it
-    if interesting {
+    if interesting && in_focus {
         let fire = HOLD_COUNTDOWN
             .try_with(|c| {
                 let v = c.get();
@@ -636,8 +649,11 @@ pub struct Stats {
     pub ext_blocks: u64,
 }
 
-pub fn start(sched: &Sched, nthreads: usize, alloc_mean: u64, block_mean: u64, atomic_mean: u64, hold_mean: u64) {
+pub fn start(sched: &Sched, nthreads: usize, alloc_mean: u64, block_mean: u64, atomic_mean: u64, hold_mean: u64, focus: u64) {
     init_static_range();
+    FOCUS_MOD.store((focus & 0xffff).max(1) as usize, Ordering::Relaxed);
+    SPIN_GUARD.store(if focus >> 16 == 0 { 20_000 } else { (focus >> 16) as usize }, Ordering::Relaxed);
+    FOCUS_SALT.store((sched.seed >> 7) as usize, Ordering::Relaxed);
     let explicit = sched.explicit.clone().unwrap_or_default();
     let explicit_mode = !explicit.is_empty() || sched.switch_ppm == 0;
     *lock() = Some(Engine {
